@@ -1789,7 +1789,12 @@ def c20(ctx: Ctx) -> None:
     # throttling / logging coroutine changes what runs and what its failures are), and the filter class is not refused for being
     # what the signature allows (any BaseException subclass)
     for prm_ in (awsp, onlyp):
-        rb_ = [n for n in g.nodes if n.kind == 'store_name' and n.meta['name'] == prm_ and not n.meta.get('inlined_param')]
+        def _copy_of_itself(v_) -> bool:
+            # `aws = list(aws)` / `tuple(aws)`: the same objects in the same order
+            return isinstance(v_, ast.Call) and isinstance(v_.func, ast.Name) and v_.func.id in ('list', 'tuple') and len(v_.args) == 1 \
+                and not v_.keywords and isinstance(v_.args[0], ast.Name) and v_.args[0].id == prm_
+        rb_ = [n for n in g.nodes if n.kind == 'store_name' and n.meta['name'] == prm_ and not n.meta.get('inlined_param')
+               and not _copy_of_itself(n.meta.get('value'))]
         ctx.check('C20-R1', f'gather_excs: `{prm_}` is used as given ({len(rb_)} re-binding(s))', g.loc(rb_[0]) if rb_ else where, not rb_,
                   'the caller\'s own objects are gathered / tested', f'`{prm_}` is replaced before it is used: what is gathered (or filtered by) is something '
                   'built from the caller\'s argument - wrappers add failures of their own and change identity-based de-duplication',
